@@ -205,6 +205,17 @@ var jsonWs = " \t\r\n"
 
 func probeDecode(o *Out, data []byte) {
 	hexIn := hexOrDash(data)
+	// C18: the library gets a sub-slice of a guarded buffer; nothing in or around it may change
+	guardBuf := bytes.Repeat([]byte{0xAA}, len(data)+24)
+	copy(guardBuf[8:], data)
+	snapshot := append([]byte(nil), guardBuf...)
+	data = guardBuf[8 : 8+len(data) : 8+len(data)+8]
+	defer func() {
+		o.Check("C18", "input-unchanged(decode)")
+		if !bytes.Equal(guardBuf, snapshot) {
+			o.Fail("C18", "input-unchanged(decode)", "parsing, reading every value, Source/Marshal/String changed the caller's bytes (or their surroundings)", hexIn, hexOrDash(snapshot[8:8+len(data)]), hexOrDash(guardBuf[8:8+len(data)]))
+		}
+	}()
 	valid := json.Valid(data)
 	root, err := ajson.Unmarshal(data)
 	o.Check("C01", "accept-vs-json.Valid")
